@@ -131,8 +131,10 @@ theorem parseUnits_valid {s : String} {u : Units} (h : parseUnits s = .ok u) : u
     · split at h
       · cases h
       · split at h
-        · cases h; assumption
         · cases h
+        · split at h
+          · cases h; assumption
+          · cases h
 
 /-- every accepted target form yields a *valid* destination system (or raises) -/
 theorem targetSys_valid {d : Dim} {t : Target} {s : Sys} (ht : t.wf)
